@@ -136,7 +136,10 @@ def seeded_variants():
         if os.path.exists(mp) and os.path.exists(pp):
             meta = json.load(open(mp))
             if meta.get("caught"):
-                res.append(dict(prop=meta["property"], name="seeded/" + name, patch=pp, expect="*", file=None, old=None, new=None, where=None))
+                # replay against the check that detects it (not always the property the author aimed at)
+                fired = sorted((meta.get("checks_fired") or {}).keys())
+                prop = meta["property"] if meta["property"] in fired or not fired else fired[0]
+                res.append(dict(prop=prop, name="seeded/" + name, patch=pp, expect="*", file=None, old=None, new=None, where=None))
     return res
 
 
